@@ -221,6 +221,7 @@ def _picks(rng, n):
 
 def _gen_ops(rng, tier, profile, n_geos):
   n_clients = rng.choice((1, 2, 2, 3))
+  listing_heavy = False
   if profile == 'c14':
     n_steps = rng.randrange(3, 9)
     w = {'q': 6, 'exhaustive': 12, 'greedy': 14, 'results': 16, 'dwc': 2}
@@ -234,10 +235,11 @@ def _gen_ops(rng, tier, profile, n_geos):
     n_steps = rng.randrange(6, 17 if tier == 'quick' else 31)
     w = {'q': 30, 'dwc': 8, 'list_t': 6, 'list_c': 6, 'open': 10, 'step': 22,
          'close': 2, 'exhaustive': 5, 'greedy': 8, 'results': 14}
-    if rng.random() < 0.15:
+    listing_heavy = rng.random() < 0.15
+    if listing_heavy:
       # listing-heavy: several listings in flight, stepped far, crossed by
       # other listings and searches
-      w.update({'q': 8, 'open': 25, 'step': 45, 'list_c': 12, 'list_t': 8,
+      w.update({'q': 14, 'open': 25, 'step': 45, 'list_c': 12, 'list_t': 8,
                 'exhaustive': 8, 'close': 1})
     enabled = set()
     if profile == 'faults':
@@ -260,6 +262,11 @@ def _gen_ops(rng, tier, profile, n_geos):
         w['mutate_returned'] = 8
       if 'sibling' in enabled:
         w['sibling'] = 7
+      if listing_heavy:
+        # ... and what queries hand out while listings are suspended is
+        # treated by the caller as its own
+        enabled.add('mutate_returned')
+        w['mutate_returned'] = 14
   p_interrupt = rng.choice((0.1, 0.2, 0.35)) if 'interrupt' in enabled else 0
   max_searches = 3 if profile != 'c14' else 4
   ops = []
@@ -280,6 +287,8 @@ def _gen_ops(rng, tier, profile, n_geos):
     op = {'op': kind, 'c': rng.randrange(n_clients)}
     if kind == 'q':
       op['name'] = rng.choice(QUERIES)
+      if listing_heavy and open_lids and rng.random() < 0.5:
+        op['name'] = 'geo_assignments'
       have_answer = True
     elif kind == 'mutate_returned':
       op['how'] = rng.choice(('clear', 'add', 'discard_one'))
